@@ -198,6 +198,7 @@ def p_C05(ctx):
     # "never twice, never while reachable" is unconditional: histories with a panic in caller code or a leaked drain / iterator
     # count too (C11 / C12 judge the array left behind; here only the ledger part of a rejection is attributed to C05)
     fm = 3
+    ctx.priority_event = ledger_evidence     # if many histories are rejected, TLC judges those with ledger evidence first
     rf = hist_tlc_edges(ctx, "faults", fm, fm, ops=("none",), faults=("iter", "clone", "default", "drop", "cmp"), workers=4)
     ctx.replay_and_validate(rf.cases_path, attr_fault_replay, attr_fault_event, profile="dev", elem="elem", cap=0, label="faults")
     rl = hist_tlc_edges(ctx, "leaks", fm, fm, ops=("leak_borrow",), faults=("forget",), workers=4)
@@ -618,7 +619,7 @@ def iter_pipeline(ctx, kinds, what):
                  bigs=(BIG_MAX, BIG_WRAP) if q else (BIG_MAX, BIG_HALF1, BIG_P32, BIG_WRAP), workers=8 if q else 12)
     ctx.count_nontrivial(r.cases_path, iter_key)
     ctx.sample_from(r.cases_path)
-    combos = [("dev", "u32"), ("release", "elem")] + ([] if q else [("release", "u32"), ("dev", "elem"), ("dev", "zst")])
+    combos = [("dev", "u32"), ("release", "elem"), ("release", "zst")] + ([] if q else [("release", "u32"), ("dev", "elem"), ("dev", "zst")])
     for prof, elem in combos:
         ctx.replay(r.cases_path, attr_iter, profile=prof, elem=elem, label="edges")
     sq = iter_tlc(ctx, "sequences", kinds, [23, 32] if q else [13, 31, 23, 32, 33], rkinds=("owned",), depth=1 if q else 1,
